@@ -80,6 +80,14 @@ fn alphabet(n: usize, tier: Tier) -> Vec<Dev> {
                 true
             }));
         }
+        // a raw identifier stands for the identifier without `r#`
+        d.push(dev(format!("v{}.ident=r#try", i), &[&format!("id{}", i)], move |s| {
+            if s.variants.iter().any(|v| v.ident == "r#try") {
+                return false;
+            }
+            s.variants[i].ident = "r#try".into();
+            true
+        }));
         d.push(dev(format!("v{}.disabled", i), &[&format!("dis{}", i)], move |s| {
             s.variants[i].disabled = true;
             true
